@@ -171,3 +171,12 @@ def run(ctx: Ctx) -> None:
     rets = [n for n in walk_no_nested(f.node) if isinstance(n, ast.Return)]
     ok = any(isinstance(c.func, ast.Attribute) and ast.unparse(c.func) == f"{f.params[0]}.memory.wordwise_repr" for c in calls_in(f.node))
     r.check(ok, "BaseCacheMemorySystem.wordwise_repr", f.loc(), "the memory table is no longer derived from the lower memory's wordwise_repr()")
+    # one location, one block: the decomposition works on the 32-bit wrapped address (aliases such as -4 / 0xFFFFFFFC must share a tag)
+    from .c03 import addr_rule
+    addr_rule(ctx, "R12.addr")
+    # a reset must not leave blocks behind: a stale dirty block would later be written back into the fresh memory
+    from ..resetrule import check_reset
+    r = ctx.rule("R12.reset", "reset() rebuilds the data cache and clears the backing memory (no stale dirty block survives)")
+    check_reset(ctx, r, "Memory", fields={"memory_file": "empty"})
+    check_reset(ctx, r, "BaseCacheMemorySystem", fields={"cache": "reconstruct", "memory": "delegate"})
+    r.floor(2)
